@@ -2,7 +2,7 @@
 
 use crate::{announce, guarded};
 use bvcommon::globmodel::{self, Opts};
-use bvcommon::runner::{enumerate, explore, hash_str, replay_case, Ctx, Layer, LayerReport, Verdict};
+use bvcommon::runner::{enumerate, explore_par, hash_str, replay_case, Ctx, Layer, LayerReport, Verdict};
 use proptest::prelude::*;
 use serde::{Deserialize, Serialize};
 
@@ -75,6 +75,9 @@ impl Layer for Match {
         // `[]…]` / `[!]…]`: a literal `]` right after the opening bracket
         if c.extglob && c.p.contains("!(") {
             v.push("extglob_negation".to_string());
+        }
+        if c.nocase && (c.p.contains("[:upper:]") || c.p.contains("[:lower:]")) {
+            v.push("nocase_with_case_class".to_string());
         }
         v
     }
@@ -233,7 +236,7 @@ pub fn run(ctx: &Ctx) -> Vec<LayerReport> {
     rep.notes.push(format!("patterns over {:?} up to length {eplen} that contain '(' and are well-formed for the model (unterminated groups excluded)", EXT_ALPHABET));
     out.push(rep);
     let n = ctx.tier.pick(20_000, 400_000);
-    out.push(explore(&Match { name: "grammar" }, grammar_cases(), n, ctx));
+    out.push(explore_par(&Match { name: "grammar" }, grammar_cases, n, ctx));
     out
 }
 
